@@ -725,6 +725,7 @@ class Stats:
         self.violated = 0
         self.unknown = 0
         self.cut_paths = 0
+        self.trivial = 0  # obligations whose two sides are the identical hash-consed z3 term (no query needed)
         self.reach = {}
 
     def merge(self, o):
@@ -737,6 +738,7 @@ class Stats:
             "violated",
             "unknown",
             "cut_paths",
+            "trivial",
         ):
             setattr(self, k, getattr(self, k) + getattr(o, k))
         for k, v in o.reach.items():
@@ -752,6 +754,7 @@ class Stats:
             "violated": self.violated,
             "unknown": self.unknown,
             "cut_paths": self.cut_paths,
+            "discharged_by_term_identity": self.trivial,
             "reach": dict(self.reach),
         }
 
@@ -1109,6 +1112,7 @@ class Context:
         if isinstance(cond, (bool,)):
             if cond:
                 self.stats.discharged += 1
+                self.stats.trivial += 1
                 return True
             self.stats.violated += 1
             self.violations.append({"label": label, "model": self.model_of(), "info": info})
@@ -1116,6 +1120,7 @@ class Context:
         s = z3.simplify(cond)
         if z3.is_true(s):
             self.stats.discharged += 1
+            self.stats.trivial += 1
             return True
         if self.lazy or self.rational:
             # nonlinear definitions are pending: the incremental core is weak on NRA (and does
